@@ -30,7 +30,7 @@ CONSTANTS
  ConnSEIs = {10}
  SPs = {TRUE}
  ConnackRcs = {0}
- AckRMs = {99999}
+ AckRMs = {2, 99999}
  AckTAMs = {99999}
  AckMPSs = {10, 11, 3, 99999}
  AckSEIs = {99999}
@@ -52,3 +52,5 @@ CONSTANTS
  Restore = FALSE
  Regulate_ = FALSE
  OptFlips = {}
+ FreeIdSends = FALSE
+ Msgs = {"m1"}
